@@ -32,8 +32,8 @@ Theorem C13_loader_safe_refuted :
   (fx_slen cur = false -> exists data, bytes_ok data /\ List.length data = 48%nat /\ deserializeC cur data = LCrash).
 Proof.
   split; intros H.
-  - exists w_sec. destruct w_sec_ok. repeat split; try assumption. exact (w_sec_crashes cur H).
-  - exists w_slen. destruct w_slen_ok. repeat split; try assumption. exact (w_slen_crashes cur H).
+  - exists w_sec. destruct w_sec_ok. split; [assumption|]. split; [assumption|]. exact (w_sec_crashes cur H).
+  - exists w_slen. destruct w_slen_ok. split; [assumption|]. split; [assumption|]. exact (w_slen_crashes cur H).
 Qed.
 Print Assumptions C13_loader_safe_refuted.
 
@@ -85,7 +85,10 @@ Theorem C13_vm_witnesses :
   (fx_substr cur = false -> is_run_of (pipeline cur w_substr 10) is_crash = true) /\
   (fx_print cur = false -> is_run_of (pipeline cur w_cycle 10) is_crash = true).
 Proof.
-  repeat split; intros H; [exact (w_div_signals cur H) | exact (w_mod_signals cur H) | exact (w_substr_crashes cur H) | exact (w_cycle_crashes cur H)].
+  split; [|split].
+  - intros H. split; [exact (w_div_signals cur H) | exact (w_mod_signals cur H)].
+  - intros H. exact (w_substr_crashes cur H).
+  - intros H. exact (w_cycle_crashes cur H).
 Qed.
 Print Assumptions C13_vm_witnesses.
 
@@ -106,8 +109,9 @@ Example C13_nonvacuous :
   finished_with (pipeline cfg_fixed w_hello 100) 0 [55; 10] = true /\ finished_with (pipeline cfg_pinned w_hello 100) 0 [55; 10] = true /\
   bytes_ok w_hello /\ on_sweep w_fn_module {| f_name := 0; f_arity := 0; f_off := 0; f_len := 10; f_locals := 0; f_upvals := 0 |} 9.
 Proof.
-  repeat split; try (vm_compute; reflexivity); try exact (proj1 w_hello_runs); try exact (proj2 w_hello_runs).
-  - apply bytes_okb_spec. vm_compute. reflexivity.
-  - change 9 with (add32 0 9). eapply sw_next; [apply sw0 | vm_compute; reflexivity | vm_compute; reflexivity].
+  split; [vm_compute; reflexivity|]. split; [vm_compute; reflexivity|].
+  split; [exact (proj1 w_hello_runs)|]. split; [exact (proj2 w_hello_runs)|].
+  split; [apply bytes_okb_spec; vm_compute; reflexivity|].
+  change 9 with (add32 0 9). eapply sw_next; [apply sw0 | vm_compute; reflexivity | vm_compute; reflexivity].
 Qed.
 Print Assumptions C13_nonvacuous.
